@@ -76,3 +76,25 @@ proof fn lemma_fp_deep_map(v: Vec<(KeyFingerprint, KeyFingerprint)>)
     assert(f is Mapping);
     assert(f->Mapping_0 =~= fp_pairs_deep(v@));
 }
+
+// ---- merge expansion order (C03) ----
+
+/// what a pending entry stands for: the events of its key and of its value
+struct AEnt<'a> { k: Seq<Ev<'a>>, v: Seq<Ev<'a>> }
+
+spec fn abs_entries<'a>(v: Seq<PendingEntry<'a>>) -> Seq<AEnt<'a>> {
+    Seq::new(v.len(), |i: int| AEnt { k: keynode_events(v[i].key), v: keynode_events(v[i].value) })
+}
+
+/// batches of merge sources flattened from the LAST one to the first (a later `<<` entry, and a
+/// later element of a merge sequence, comes first and therefore wins at flush time)
+spec fn concat_rev<'a>(batches: Seq<Vec<PendingEntry<'a>>>) -> Seq<AEnt<'a>>
+    decreases batches.len()
+{
+    if batches.len() == 0 { Seq::empty() } else { abs_entries(batches.last()@) + concat_rev(batches.drop_last()) }
+}
+
+proof fn lemma_abs_entries_append<'a>(a: Seq<PendingEntry<'a>>, b: Seq<PendingEntry<'a>>)
+    ensures abs_entries(a + b) =~= abs_entries(a) + abs_entries(b),
+{
+}
